@@ -561,6 +561,18 @@ func genScript(r *gen.R, payloadLen int) []ReadStep {
 	if r.P(150) {
 		return nil // whole-buffer reads
 	}
+	if r.P(40) {
+		// a slow trickle: one to three bytes at a time with a zero-length read (sometimes two) before
+		// each - never many in a row, more than a hundred over the life of the stream
+		for i, m := 0, 110+r.Intn(150); i < m; i++ {
+			sc = append(sc, ReadStep{N: 0})
+			if r.P(200) {
+				sc = append(sc, ReadStep{N: 0})
+			}
+			sc = append(sc, ReadStep{N: 1 + r.Intn(3)})
+		}
+		return sc
+	}
 	n := 1 + r.Intn(64)
 	zero := 0
 	for i := 0; i < n; i++ {
